@@ -74,6 +74,10 @@ func (x *Exec) evalBuiltin(s *State, name string, e *ast.CallExpr) Val {
 			return x.makeMap(s, t)
 		case *types.Chan:
 			r := s.alloc("chan")
+			if tc := x.topContract(); tc != nil && tc.Opts["chanstate"] != "" {
+				cur := s.heapGet(chanClosedArr, arrSort(sBool))
+				s.heapSet(chanClosedArr, arrSort(sBool), mkSto(cur, r, "false"), r)
+			}
 			capT := "0"
 			if len(e.Args) > 1 {
 				capT = x.eval(s, e.Args[1]).S
@@ -460,7 +464,16 @@ func (x *Exec) chanSend(s *State, st *ast.SendStmt) {
 
 func (x *Exec) chanClose(s *State, ch Val, e *ast.CallExpr) {
 	x.nilCheck(s, ch.S, e.Pos(), "close of nil channel")
+	if tc := x.topContract(); tc != nil && tc.Opts["chanstate"] != "" {
+		// closed-state of channels (opt chanstate): closing twice panics
+		cur := s.heapGet(chanClosedArr, arrSort(sBool))
+		x.oblige(s, "close", e.Pos(), mkNot(mkSel(cur, ch.S)), "close of closed channel")
+		s.heapSet(chanClosedArr, arrSort(sBool), mkSto(cur, ch.S, "true"), ch.S)
+	}
 }
+
+// chanClosedArr: heap array channel -> closed?  (unknown calls havoc it like everything else)
+const chanClosedArr = "H$chan$closed"
 
 // execSelect: nondeterministic choice among the cases (each is explored).
 func (x *Exec) execSelect(s *State, st *ast.SelectStmt, label string) *State {
